@@ -39,13 +39,13 @@ REGISTRY["C04"] = l2("C04", "dtd", ["harness/l2/dtd_driver.c"], ["harness/l2/dtd
 REGISTRY["C17"] = l2("C17", "dtd", ["harness/l2/dtd_driver.c"], ["harness/l2/dtd.c"], 4, DTD_REAL,
     "as C03 with partial flushes (random subset of tiles) or flush_all; owner copy after flush+wait compared with the last writer in insertion order",
     knobs=["prop=17"])
-PTG_PROGS = ["chain", "branch", "wave", "gather", "steps", "newnull", "startup", "alt"]
+PTG_PROGS = ["chain", "branch", "wave", "gather", "steps", "newnull", "startup", "alt", "ctldata"]
 PTG_ALL = [(p, m) for p in PTG_PROGS for m in ("dynamic-hash-table", "index-array")]
 PTG_REAL = ["ptgpp (the real PTG compiler: jdf.c, jdf2c.c, parsec.y) run on generated JDF programs", "the generated startup / release_deps / data_lookup code, instrumented",
             "all of libparsec, instrumented (parsec.c, scheduling.c, scheduler modules, datarepo.c, mempool.c, hash tables, remote_dep*.c, parsec_mpi_funnelled.c, termdet modules)",
             "harness/l2/ptg_driver.c (rankified with the library and the generated code, one copy per simulated rank)"]
-PTG_BOUNDS = ("8 generated PTG programs (RW chains with derived locals, range fan-out + ternary routing, triangular wavefront with NEW/NULL, CTL range gather/fan-out, "
-              "negative and expression steps, WRITE<-NEW broadcast to readers, stepped dependency ranges and many startup tasks, alternative guarded inputs on one CTL / data flow) x 2 dependency back-ends; "
+PTG_BOUNDS = ("9 generated PTG programs (RW chains with derived locals, range fan-out + ternary routing, triangular wavefront with NEW/NULL, CTL range gather/fan-out, "
+              "negative and expression steps, WRITE<-NEW broadcast to readers, stepped dependency ranges and many startup tasks, alternative guarded inputs on one CTL / data flow, control + data flows of one task to one remote successor) x 2 dependency back-ends; "
               "sizes N<=6 M<=4 L,S<=3 (<= ~60 task instances), 1-8 threads, 11 schedulers, task_startup_iter/chunk in {default,1,2,7}, keep_highest_priority_task")
 
 def ptg(prop, knobs, ranks, bounds_extra="", quick=(120, 200000), thorough=(1800, 20000000), progs=None, engine="simcore-L1", **kw):
@@ -61,11 +61,11 @@ REGISTRY["C16"] = ptg("C16", ["prop=16", "nranks=1", "again_pct=40"], 1, "; bodi
 REGISTRY["C05"] = ptg("C05", ["prop=5"], 4, progs=PTG_ALL + [("mcast", "dynamic-hash-table"), ("mcast", "index-array")], bounds_extra= "; 1-4 ranks, runtime_comm_coll_bcast in {default,0,1,2}, short_limit, aggregate, thread_multiple, simulated network adversities", engine="simcore-L2")
 REGISTRY["C15"] = ptg("C15", ["prop=15", "nranks=1", "hist=15"], 1, "; compositions of 1-20 taskpools (crossing the realloc boundary at 16), optionally next to an independent taskpool")
 REGISTRY["C06"] = ptg("C06", ["prop=6", "nranks=1", "hist=6"], 1, "; API histories of 1-4 start/wait epochs with 1-3 PTG taskpools each, added before or after start or from a completion callback, parsec_context_test and parsec_taskpool_wait in between")
-PTG_DYN = [(p, m + "+dyn") for p in ("chain", "branch", "wave", "gather", "newnull", "startup", "mcast", "alt") for m in ("dynamic-hash-table",)] + [("steps", "index-array+dyn")]
+PTG_DYN = [(p, m + "+dyn") for p in ("chain", "branch", "wave", "gather", "newnull", "startup", "mcast", "alt", "ctldata") for m in ("dynamic-hash-table",)] + [("steps", "index-array+dyn")]
 REGISTRY["C11"] = ptg("C11", ["prop=11"], 5, "; programs compiled with ptgpp --dynamic-termdet (real four-counter module, real remote_dep message accounting, wave messages over simmpi), 1-5 ranks; "
                       "oracle at every termination callback: no task pending anywhere, no application message in flight; every rank detects termination exactly once", progs=PTG_DYN, engine="simcore-L2")
 REGISTRY["C12"] = ptg("C12", ["prop=12"], 8, "; user-triggered termination program, 1-8 ranks, every root (global R), notifications observed on the simulated network", progs=[("utt", "dynamic-hash-table"), ("utt", "index-array")], engine="simcore-L2")
-REGISTRY["C13"] = ptg("C13", ["prop=13"], 8, "; 1-8 ranks, comm_coll_bcast in {default,0,1,2}; activation headers decoded on the simulated network", progs=[("mcast", "dynamic-hash-table"), ("mcast", "index-array"), ("newnull", "dynamic-hash-table"), ("branch", "dynamic-hash-table"), ("wave", "dynamic-hash-table"), ("gather", "dynamic-hash-table")], engine="simcore-L2")
+REGISTRY["C13"] = ptg("C13", ["prop=13"], 8, "; 1-8 ranks, comm_coll_bcast in {default,0,1,2}; activation headers decoded on the simulated network", progs=[("mcast", "dynamic-hash-table"), ("mcast", "index-array"), ("newnull", "dynamic-hash-table"), ("branch", "dynamic-hash-table"), ("wave", "dynamic-hash-table"), ("gather", "dynamic-hash-table"), ("ctldata", "dynamic-hash-table"), ("ctldata", "index-array")], engine="simcore-L2")
 
 # fragments written per property (one file each, so that harnesses can be developed independently)
 import glob, os as _os
